@@ -8,7 +8,7 @@ import warnings
 
 import numpy as np
 
-from common import f2b
+from common import f2b, b2f
 
 NOF = 2 ** 64  # "no objective value given to the callback" (positional xk signature)
 
@@ -409,25 +409,14 @@ def record(problem, timeout=120, inject=None):
     return out
 
 
-def truth_at_result(out, problem):
-    """Independent statement of C02 for one finished run: is res.x an evaluated point, is res.fun the raw value
-    returned there, and what is the true maximum violation of the constraints AS THE USER STATED THEM at res.x
-    (bounds, linear constraints evaluated in user space, nonlinear ones from the values the user functions
-    returned at that point).  Returns dict(evaluated, fun_ok, true_maxcv, lin_scale)."""
-    from scipy.optimize import Bounds, LinearConstraint, NonlinearConstraint
-    rec, res = out["rec"], out["res"]
-    x = np.array(res.x, float)
-    key = tuple(f2b(v) for v in x)
-    pid = rec.pids.get(key)
+def true_violation(out, x, pid):
+    """true maximum violation of the constraints AS THE USER STATED THEM at the user point `x` (point id `pid`): bounds
+    and linear constraints evaluated in user space, nonlinear ones from the values the user functions returned at that
+    point.  Returns (violation or NaN, scale of the linear terms, half-width allowance of near-equalities, complete)"""
+    from scipy.optimize import LinearConstraint
+    rec = out["rec"]
     calls = [r for r in rec.returns if r[2] == pid] if pid is not None else []
-    upids = {int(e.split()[2]) for e in rec.events if e.startswith("evalBegin ")}
-    evaluated = pid is not None and pid in upids
-    if problem.get("fun") is not None:
-        evaluated = evaluated and any(r[0] == "obj" for r in calls)
-    fvals = [r[3] for r in calls if r[0] == "obj"]
-    fun_ok = None
-    if problem.get("fun") is not None:
-        fun_ok = any(f2b(float(np.squeeze(v))) == f2b(res.fun) or (float(np.squeeze(v)) != float(np.squeeze(v)) and res.fun != res.fun) for v in fvals)
+    complete = True
     viol, scale = 0.0, 1.0
     spec = out["spec"]
     lb, ub = spec["xl"], spec["xu"]
@@ -451,7 +440,7 @@ def truth_at_result(out, problem):
                 l, u = c.lb, c.ub
             j += 1
             if not vals:
-                evaluated = False
+                complete = False
                 continue
             w = np.atleast_1d(np.array(vals[-1], float))
             l = np.broadcast_to(np.array(l, float), w.shape)
@@ -464,8 +453,58 @@ def truth_at_result(out, problem):
             viol = max(viol, float(np.max(np.where(np.isfinite(l), l - w, 0.0), initial=0.0)), float(np.max(np.where(np.isfinite(u), w - u, 0.0), initial=0.0)))
     if nan_seen:
         viol = float("nan")
+    return viol, scale, slack, complete
+
+
+def truth_at_result(out, problem):
+    """Independent statement of C02 for one finished run: is res.x an evaluated point, is res.fun the raw value
+    returned there, and what is the true maximum violation at res.x.  Returns dict(evaluated, fun_ok, true_maxcv, ...)."""
+    rec, res = out["rec"], out["res"]
+    x = np.array(res.x, float)
+    key = tuple(f2b(v) for v in x)
+    pid = rec.pids.get(key)
+    calls = [r for r in rec.returns if r[2] == pid] if pid is not None else []
+    upids = {int(e.split()[2]) for e in rec.events if e.startswith("evalBegin ")}
+    evaluated = pid is not None and pid in upids
+    if problem.get("fun") is not None:
+        evaluated = evaluated and any(r[0] == "obj" for r in calls)
+    fvals = [r[3] for r in calls if r[0] == "obj"]
+    fun_ok = None
+    if problem.get("fun") is not None:
+        fun_ok = any(f2b(float(np.squeeze(v))) == f2b(res.fun) or (float(np.squeeze(v)) != float(np.squeeze(v)) and res.fun != res.fun) for v in fvals)
+    viol, scale, slack, complete = true_violation(out, x, pid)
+    evaluated = evaluated and complete
     return {"evaluated": bool(evaluated), "fun_ok": fun_ok, "true_maxcv": viol, "lin_scale": scale, "eq_slack": slack,
             "maxcv": float(res.maxcv), "fun": float(res.fun)}
+
+
+def truth_all(out, problem):
+    """the same independent recomputation at EVERY evaluation: the violation the code recorded for evaluation k (the value
+    that enters the filter, the history and the stopping tests) against the true violation at the user point of that
+    evaluation.  Returns dict(checked, bad: first disagreement or None)."""
+    rec = out["rec"]
+    eps = float(np.finfo(float).eps)
+    checked, bad = 0, None
+    upid = None
+    k = -1
+    for e in rec.events:
+        if e.startswith("evalBegin "):
+            upid = int(e.split()[2])
+            k += 1
+        elif e.startswith("val ") and upid is not None:
+            v = b2f(int(e.split()[2]))
+            x = rec.points[upid]
+            tv, scale, slack, complete = true_violation(out, x, upid)
+            if not complete:
+                continue
+            checked += 1
+            if tv != tv or v != v:
+                ok = (tv != tv) == (v != v)
+            else:
+                ok = abs(v - tv) <= 64 * eps * scale + slack or v == tv
+            if not ok and bad is None:
+                bad = {"evaluation": k, "recorded": v, "true": tv, "x": [float(t) for t in x]}
+    return {"checked": checked, "bad": bad}
 
 
 def cfg_line(out, problem):
